@@ -191,9 +191,12 @@ def unclean_float(x):
 def finish(pid, tier, seed, level, total: Result, t0, replay_fns, rule, assumptions, extra=None,
            exhaustive=True, min_nontrivial=2):
     known = load_known(pid)
-    rdir = os.path.join(VERIF, "replays", pid)
+    # VERIF_OUT redirects evidence + replays (used when running against a seeded mutant, so that the
+    # committed evidence of the unchanged tree is not overwritten)
+    OUT = os.environ.get("VERIF_OUT") or VERIF
+    rdir = os.path.join(OUT, "replays", pid)
     os.makedirs(rdir, exist_ok=True)
-    os.makedirs(os.path.join(VERIF, "evidence"), exist_ok=True)
+    os.makedirs(os.path.join(OUT, "evidence"), exist_ok=True)
 
     # group failures by key, keep the FIRST (enumeration order = simplest first)
     by_key = {}
@@ -265,7 +268,7 @@ def finish(pid, tier, seed, level, total: Result, t0, replay_fns, rule, assumpti
               assumptions=list(assumptions), wall_s=round(time.time() - t0, 2),
               violations=n_viol,
               known_findings_hit=sorted(str(x) for x in known_hit.keys()))
-    with open(os.path.join(VERIF, "evidence", pid + ".json"), "w") as fh:
+    with open(os.path.join(OUT, "evidence", pid + ".json"), "w") as fh:
         json.dump(ev, fh, indent=1)
 
     # vacuity guards: a run that explored nothing, or nothing non-trivial, is a harness error
